@@ -177,6 +177,15 @@ func TestC03(t *testing.T) {
 	check(t, "C03", func(rt *rapid.T, c *caseInfo) {
 		g := zoo.NewG(rt, cfg)
 		v, shape := g.Top()
+		if rapid.IntRange(0, 19).Draw(rt, "large") == 0 {
+			// chunks longer than the decoder's usual buffer, in any order of sizes
+			n := rapid.IntRange(4097, 12000).Draw(rt, "largeLen")
+			if rapid.Bool().Draw(rt, "largeString") {
+				v, shape = &zoo.StrCarrier{S: mkString(rapid.IntRange(0, 4).Draw(rt, "largeClass"), n, 0, 0, uint64(n)), L: []string{"a", mkString(0, n/2, 0, 0, 1)}}, "ptr:StrCarrier(large)"
+			} else {
+				v, shape = &zoo.BinCarrier{B: mkBytes(n, uint64(n)), L: [][]byte{mkBytes(n/3, 2), {1}}, A: []interface{}{mkBytes(n-1, 3)}}, "ptr:BinCarrier(large)"
+			}
+		}
 		tm, nm := hessian.ExtractTypeNameMap(v)
 		hoist := rapid.Bool().Draw(rt, "hoistAnywhere")
 		pad := rapid.SampledFrom([]int{0, 0, 1, 3, 17}).Draw(rt, "maxPadding")
